@@ -806,6 +806,7 @@ pub fn run(ops: &[String]) -> Vec<String> {
 					let x: Vec<Frame> = (0..(ibs * count) as u64).map(|k| sig_frame(sig, amp, freq, dt, k, &mut st)).collect();
 					let part = vec![ibs; count];
 					let info = info_state.build();
+					let was_fresh = r.spec.fresh;
 					let m = r.feed(&x, &part, dt, &info, l, out, true);
 					let (mut sum, mut nonfinite) = (0u32, 0u64);
 					for v in m.iter().flat_map(|f| [f.left, f.right]) {
@@ -880,6 +881,30 @@ pub fn run(ops: &[String]) -> Vec<String> {
 								}
 							}
 							_ => {}
+						}
+					}
+					// ---- C14: the attack curve from rest: envelope_i = over (1 - exp(-dt/attack)^(i+1)) (theorem C14_compressor_constant_level)
+					if sp.in_domain && sp.is_static && sp.kind == "comp" && was_fresh && sig == "dc" && amp != 0.0 && all_finite(&m)
+						&& sp.p("mix") >= 1.0
+					{
+						let a = amp as f64;
+						let thr = sp.p("threshold") as f32 as f64;
+						let ratio = sp.p("ratio") as f32 as f64;
+						let over = (20.0 * a.abs().log10() - thr).max(0.0);
+						let att = sp.p("attack");
+						let sp_a = if att == 0.0 { 0.0 } else { (-dt / att).exp() };
+						if over > 0.5 {
+							evald(out, "comp_attack_curve");
+							let n = m.len();
+							for i in [0, n / 4, n / 2, n - 1] {
+								let env = over * (1.0 - sp_a.powi(i as i32 + 1));
+								let e = a * 10f64.powf(env * (1.0 / ratio - 1.0) / 20.0) * 10f64.powf(sp.p("makeup") / 20.0);
+								let t = 2e-3 * e.abs() + 1e-30;
+								if !close(m[i].left, e as f32, t) || !close(m[i].right, -e as f32, t) {
+									out.oracle_fail("comp_attack_curve", l);
+									break;
+								}
+							}
 						}
 					}
 					// ---- C14: settled responses at the Nyquist frequency and to a sine at the corner frequency
